@@ -41,6 +41,8 @@ enum Place {
     InMacro,
     InNestedMacro,
     MacroInProc,
+    /// the item comes after a use of a macro whose body is empty
+    AfterEmptyMacro,
 }
 
 #[derive(Clone)]
@@ -95,6 +97,10 @@ fn template(k: Kind, p: Place) -> Template {
     if p != Place::InProcAfterStart {
         procdef(&mut code);
     }
+    if p == Place::AfterEmptyMacro {
+        code.push(Item::MacroDef("off".into(), vec!["a".into()], "".into()));
+        mb.insert("off".into(), vec![]);
+    }
     code.push(label("start"));
     // preconditions of the run-ending kinds
     match k {
@@ -103,6 +109,12 @@ fn template(k: Kind, p: Place) -> Template {
         _ => {}
     }
     if p == Place::First {
+        code.push(it());
+    }
+    if p == Place::AfterEmptyMacro {
+        code.push(Item::MacroUse("off".into(), vec!["si".into()]));
+        code.push(filler2());
+        code.push(Item::MacroUse("off".into(), vec!["di".into()]));
         code.push(it());
     }
     code.push(filler1());
@@ -151,7 +163,7 @@ fn multi(k: Kind) -> Template {
 fn templates() -> Vec<Template> {
     let mut v = Vec::new();
     for k in [Kind::Print, Kind::Int3, Kind::DivErr, Kind::Unsupp] {
-        for p in [Place::First, Place::Middle, Place::Last, Place::InProc, Place::InProcAfterStart, Place::InMacro, Place::InNestedMacro, Place::MacroInProc] {
+        for p in [Place::First, Place::Middle, Place::Last, Place::InProc, Place::InProcAfterStart, Place::InMacro, Place::InNestedMacro, Place::MacroInProc, Place::AfterEmptyMacro] {
             v.push(template(k, p));
         }
     }
@@ -465,8 +477,23 @@ fn semantic_cases(lay: &Layout) -> Vec<DiagCase> {
     // the offending statement comes out of a macro: the use line is the one to cite
     {
         let mbase: Vec<&str> = vec!["bv: db 1", "macro goto(l) -> jmp l <-", "macro outer(l) -> inc ax goto(l) <-", "macro setb(v) -> mov al, v <-", "start:", "inc cx", "again:", "inc dx", "stc"];
-        for (class, line) in [("undefined label", "goto(nowhere)"), ("undefined label", "outer(nowhere)"), ("constant out of range", "setb(300)"), ("undefined label", "goto(again) goto(nowhere)")] {
-            for pos in [5usize, 7, mbase.len()] {
+        let mbase: Vec<&str> = {
+            let mut m = mbase.clone();
+            m.insert(4, "macro outer2(v) -> inc ax setb(v) dec ax <-");
+            m.insert(5, "macro outer3(v) -> outer2(v) <-");
+            m.insert(6, "macro off(a) -> <-");
+            m
+        };
+        for (class, line) in [
+            ("undefined label", "goto(nowhere)"),
+            ("undefined label", "outer(nowhere)"),
+            ("constant out of range", "setb(300)"),
+            ("undefined label", "goto(again) goto(nowhere)"),
+            ("constant out of range", "outer2(300)"),
+            ("constant out of range", "outer3(300)"),
+            ("undefined label", "off(ax) goto(nowhere)"),
+        ] {
+            for pos in [8usize, 10, mbase.len()] {
                 let mut lines: Vec<String> = mbase.iter().map(|s| s.to_string()).collect();
                 lines.insert(pos, line.to_string());
                 let (text, map) = lay_out(&lines, lay);
@@ -702,7 +729,7 @@ pub fn run(tier: &Tier) -> i32 {
     }
     let mut cov = Coverage::default();
     cov.exhaustive = true;
-    cov.rule = format!("{} templates = 4 item kinds (print, INT 3, divide error, unsupported AH) x 8 placements (first / middle / last line, inside a procedure defined before or after start, inside a macro body, inside nested macros, macro used inside a procedure) plus two multi-item programs with loops; layouts = {{no filler, blank lines, comment-only lines, mixed}} x {{trailing comments or not}} x {{final newline or not}} (10 layouts). (a) library level: for every emitted instruction the source-map offset must lie in the line of the instruction (macro output: outermost use line; implied ret: closing brace). (b) every template x every layout through the real binary, plain and with -i (every instruction is then preceded by a step message): line numbers and line texts of all messages are matched. (c) diagnostics: for {} token positions: '@' inserted before the token, the token replaced by ')', the file truncated after the token; plus 12 semantic errors at first / middle / last line and 3 data-side errors in all 10 layouts; the position the real Preprocessor reports is cross-checked against the generator-known token offset, and the binary's message must cite that line, column (0- or 1-based) and line text", ts.len(), "all");
+    cov.rule = format!("{} templates = 4 item kinds (print, INT 3, divide error, unsupported AH) x 9 placements (after uses of a macro with an empty body, first / middle / last line, inside a procedure defined before or after start, inside a macro body, inside nested macros, macro used inside a procedure) plus two multi-item programs with loops; layouts = {{no filler, blank lines, comment-only lines, mixed}} x {{trailing comments or not}} x {{final newline or not}} (10 layouts). (a) library level: for every emitted instruction the source-map offset must lie in the line of the instruction (macro output: outermost use line; implied ret: closing brace). (b) every template x every layout through the real binary, plain and with -i (every instruction is then preceded by a step message): line numbers and line texts of all messages are matched. (c) diagnostics: for {} token positions: '@' inserted before the token, the token replaced by ')', the file truncated after the token; plus 12 semantic errors at first / middle / last line and 3 data-side errors in all 10 layouts; the position the real Preprocessor reports is cross-checked against the generator-known token offset, and the binary's message must cite that line, column (0- or 1-based) and line text", ts.len(), "all");
     cov.bounds = json!({"templates": ts.len(), "library_runs": lib_work.len(), "source_map_entries_checked": st.lib_entries.load(Ordering::Relaxed), "message_runs": cli_work.len(), "messages_checked": st.cli_msgs.load(Ordering::Relaxed), "diagnostic_runs": diag.len(), "syntax_diagnostics": total, "reported_exactly_at_corrupted_token": exact, "reported_later_than_corrupted_token": st.diag_later.load(Ordering::Relaxed), "corruptions_leaving_a_valid_program": st.still_valid.load(Ordering::Relaxed), "tier": tier.name()});
     cov.assumptions = common_assumptions();
     cov.assumptions.push("line text in messages is compared modulo the ';' comment and surrounding white space; line numbers exactly; columns 0- or 1-based".into());
